@@ -7,6 +7,7 @@
 package main
 
 import (
+	"encoding/json"
 	"fmt"
 	"math"
 	"strings"
@@ -26,9 +27,66 @@ type BatchCfg struct {
 	Kind     string    `json:"kind"` // normal | vnormal | exponential | poisson | geometric | categorical | negbin
 	X        []float64 `json:"x"`    // observations (vnormal: D consecutive entries per observation)
 	D        int       `json:"d"`
-	G        []float64 `json:"g"` // log weights (nil: gamma == nil)
+	G        JFloats   `json:"g"` // log weights (nil: gamma == nil); JSON-safe: -Inf / +Inf / NaN as strings
 	SigmaMin float64   `json:"sigma_min"`
 	Spread   bool      `json:"spread"`
+}
+
+// a []float64 whose JSON form survives the non-finite values the generators use (round 7: a failing configuration
+// with a -Inf log-weight made json.Marshal fail and the race / hunt summaries came out empty)
+type JFloats []float64
+
+func (f JFloats) MarshalJSON() ([]byte, error) {
+	if f == nil {
+		return []byte("null"), nil
+	}
+	parts := make([]string, len(f))
+	for i, v := range f {
+		switch {
+		case math.IsInf(v, -1):
+			parts[i] = `"-Inf"`
+		case math.IsInf(v, 1):
+			parts[i] = `"+Inf"`
+		case math.IsNaN(v):
+			parts[i] = `"NaN"`
+		default:
+			b, err := json.Marshal(v)
+			if err != nil {
+				return nil, err
+			}
+			parts[i] = string(b)
+		}
+	}
+	return []byte("[" + strings.Join(parts, ",") + "]"), nil
+}
+
+func (f *JFloats) UnmarshalJSON(b []byte) error {
+	if string(b) == "null" {
+		*f = nil
+		return nil
+	}
+	var raw []interface{}
+	if err := json.Unmarshal(b, &raw); err != nil {
+		return err
+	}
+	out := make(JFloats, len(raw))
+	for i, v := range raw {
+		switch t := v.(type) {
+		case float64:
+			out[i] = t
+		case string:
+			switch t {
+			case "-Inf":
+				out[i] = math.Inf(-1)
+			case "+Inf":
+				out[i] = math.Inf(1)
+			default:
+				out[i] = math.NaN()
+			}
+		}
+	}
+	*f = out
+	return nil
 }
 
 func (c *BatchCfg) n() int {
@@ -256,7 +314,22 @@ func (g *gen) batchCases(cfg *BatchCfg) {
 	for _, gm := range cfg.G {
 		ws = append(ws, math.Exp(gm-0.0))
 	}
-	for _, pc := range poolSet(g.rng, g.tier, n) {
+	pcs := poolSet(g.rng, g.tier, n)
+	if cfg.Kind == "vnormal" && cfg.D >= 2 {
+		// round 7: the second-moment accumulators sum_s[id][i][j] (a symmetric quantity, every entry stored and merged) on
+		// pools of 1, 2, 3, 4 and 7 threads for every vector case of dimension >= 2
+		have := map[int]bool{}
+		for _, pc := range pcs {
+			have[pc.K] = true
+		}
+		for _, k := range []int{3, 4, 7} {
+			if !have[k] {
+				pcs = append(pcs, PoolCfg{K: k, Buf: []int{1, 2, 100}[k%3], Nested: 0, Yield: k%2 == 1})
+				g.aw.Count("batch:vnormal-extra-pool")
+			}
+		}
+	}
+	for _, pc := range pcs {
 		o, pn := runBatch(cfg, pc)
 		raw := RawCase{Site: "batch", Pool: pc, Batch: cfg, Out: fmt.Sprintf("par=%v err=%v ref=%v referr=%v sched=%v", o.Par, o.Err, ref.Par, ref.Err, o.Sched), Panic: pn + rpn}
 		var checks []string
